@@ -506,7 +506,7 @@ void DNS::convert_records(const uint8_t* ptr,
 // no length checks, records should already be valid
 uint8_t* DNS::update_dname(uint8_t* ptr, uint32_t threshold, uint32_t offset) {
     while (*ptr != 0) {
-        if ((*ptr & 0xc0)) {
+        if ((*ptr & 0xc0) == 0xc0) {
             uint16_t index;
             memcpy(&index, ptr, sizeof(uint16_t));
             index = Endian::be_to_host(index) & 0x3fff;
